@@ -490,6 +490,21 @@ XOptCase(c) ==
   Chk("set-membership", c.ab => c.set_size = 1) \o
   Chk("flatten-1", Flatten(c.t, c.cfg1).spec = c.sa) \o Chk("flatten-2", Flatten(c.t, c.cfg2).spec = c.sb)
 
+\* treespecs made under different option sets: the mismatch rules of ==, <=, compose, broadcast, transform, transpose (A6-A10)
+XSpecCase(c) ==
+  LET sa == c.sa  sb == c.sb
+      e == SpecEq(sa, sb)  p == SpecPrefix(sa, sb, FALSE)  ps == SpecPrefix(sa, sb, TRUE)
+      cm == Compose(sa, sb)  l == Lub(sa, sb)
+      tr == Transpose(sa, sb, [k \in 1..(NumLeaves(sa) * NumLeaves(sb)) |-> k])
+  IN Chk("eq", c.eq.err = "" /\ c.eq.v[1] = e /\ c.eq.v[2] = e /\ c.eq.v[3] = ~e /\ (e => c.eq.v[4])) \o
+     Chk("is_prefix", c.is_prefix.err = "" /\ c.is_prefix.v = <<p, ps, p, p, ps>>) \o
+     Chk("compose", IF IsErr(cm) THEN c.compose.err = cm.err ELSE c.compose.err = "" /\ c.compose.v = cm.spec) \o
+     \* (with no leaf to replace the leaf function is never consulted, so a mismatch cannot be noticed by transform)
+     Chk("transform-leaf", IF IsErr(cm) THEN (NumLeaves(sa) > 0 => c.transform_leaf.err = cm.err)
+                           ELSE c.transform_leaf.err = "" /\ SpecEq(c.transform_leaf.v, cm.spec) /\ c.transform_leaf.v.nodes = cm.spec.nodes) \o
+     Chk("broadcast_to_common_suffix", IF IsErr(l) THEN c.bcs.err = l.err ELSE c.bcs.err = "" /\ c.bcs.v = l.spec) \o
+     Chk("transpose", IF IsErr(tr) THEN c.transpose.err = tr.err ELSE c.transpose.err = "")
+
 PairCase(c) ==
   (IF InSeq("eq", c.fams) THEN EqClauses(c) ELSE <<>>) \o
   (IF InSeq("prefix", c.fams) THEN PrefixClauses(c) ELSE <<>>) \o
@@ -549,6 +564,7 @@ Verdict(c) ==
     [] c.op = "depth" -> DepthCase(c)
     [] c.op = "pair" -> PairCase(c)
     [] c.op = "xopt" -> XOptCase(c)
+    [] c.op = "xspec" -> XSpecCase(c)
     [] c.op = "map" -> MapCase(c)
     [] c.op = "transpose" -> TransposeCase(c)
     [] c.op = "pickle" -> PickleCase(c)
